@@ -59,6 +59,17 @@ Fixpoint off_list (cur : Z) (l : list (Z * Z)) (t : Z) : Z :=
   end.
 Definition off_table (z : ztable) (t : Z) : Z := off_list (fst z) (snd z) t.
 
+(* decidable well-formedness of a transition table for the window hypothesis of Proofs/ZoneProofs.v: every offset within
+   +-B, transitions in increasing order and more than 2B apart *)
+Fixpoint chain (B prev : Z) (l : list (Z * Z)) : bool :=
+  match l with
+  | [] => true
+  | (at_, o) :: r => (prev + 2 * B <? at_) && (- B <=? o) && (o <=? B) && chain B at_ r
+  end.
+Definition table_ok (B : Z) (z : ztable) : bool :=
+  (0 <=? B) && (- B <=? fst z) && (fst z <=? B) &&
+  match snd z with [] => true | (at_, o) :: r => (- B <=? o) && (o <=? B) && chain B at_ r end.
+
 Section Zone.
   Variable off : Z -> Z.
 
